@@ -263,7 +263,7 @@ def gen_refused_then_foreign(rng, i):
 
 
 def run_one(desc):
-    if desc.get("family") == "chain":
+    if desc.get("family") in ("chain", "zip-race"):
         return _chain_as_own(desc)
     if desc.get("kind") == "comb":
         return run_comb(desc)
@@ -299,9 +299,9 @@ def run_one(desc):
 
 
 def _chain_as_own(desc):
-    """a two-stage chain scenario of C13 (callback registration racing the completion), reported under this property"""
+    """a two-stage chain / zip-output scenario of C13 (callback registration racing the completion), reported under this property"""
     from props import C13
-    r = C13.run_chain(desc)
+    r = C13.run_zip_race(desc) if desc.get("family") == "zip-race" else C13.run_chain(desc)
     for h in r["hits"]:
         h["sig"] = h["sig"].replace("C13/", "C02/", 1)
     r["verdicts"] = []
